@@ -55,6 +55,8 @@ INLINE = [
     "from __future__ import annotations\ndef f(a: int) -> str: pass\n",
     "def f():\n    'doc'\ndef g():\n    1\n    'notdoc'\ndef h():\n    return 'first const string'\n",
     "x = '\\ud800'\ndef f():\n    '\\udc00 lone'\n",
+    # a lone surrogate next to characters first assigned in Unicode 12, 13, 14 and 15 (repr() of these depends on the host)
+    "x = '\\ud800\\U0001F971\\U0001FAD0\\U0001FAE0\\U0001FAE8'\ndef f():\n    '\\U0001FAE0\\udc00 doc'\n    return '\\U0001FAE8'\n",
     "x = float('nan')\ny = (1e400, -1e400, 1e400 - 1e400)\n",
 ]
 
